@@ -526,7 +526,7 @@ Qed.
 
 (* ------------------------------------------------------------------ histories *)
 (* one step of run_wops *)
-Definition wstep (op : wop) (w : writer) : wobs * writer * bool :=
+Definition run_op (op : wop) (w : writer) : wobs * writer * bool :=
   match op with
   | WWrite p =>
     let '(r, w1) := write p w in
@@ -561,7 +561,7 @@ Definition wstep (op : wop) (w : writer) : wobs * writer * bool :=
   end.
 
 Lemma run_wops_cons op rest w : run_wops (op :: rest) w =
-  let '(o, w1, stop) := wstep op w in
+  let '(o, w1, stop) := run_op op w in
   if stop then ([o], w1) else let '(os, w2) := run_wops rest w1 in (o :: os, w2).
 Proof. reflexivity. Qed.
 
@@ -581,12 +581,12 @@ Fixpoint ops_cost (ops : list wop) : N :=
 
 Definition obs_safe (o : wobs) : Prop := o_panic o = None /\ o_err o <> Some WHang.
 
-Lemma wstep_A op w : writer_inv w -> is_reset op = false ->
+Lemma run_op_A op w : writer_inv w -> is_reset op = false ->
   28 + 4 * (len (w_buf w) + op_cost op) <= max_int ->
-  exists o w', wstep op w = (o, w', false) /\ obs_safe o /\ writer_inv w' /\
+  exists o w', run_op op w = (o, w', false) /\ obs_safe o /\ writer_inv w' /\
     len (w_buf w') <= len (w_buf w) + op_cost op.
 Proof.
-  intros Hi Hr Hb. destruct op as [p|data sizes|p| | |n| |xs|st op|op]; cbn [wstep op_cost] in *; try discriminate.
+  intros Hi Hr Hb. destruct op as [p|data sizes|p| | |n| |xs|st op|op]; cbn [run_op op_cost] in *; try discriminate.
   - destruct (write_A p w Hi ltac:(lia)) as (n & e & w' & H & He & Hi' & Hl). rewrite H.
     eexists _, _. split; [reflexivity|]. split; [split; [reflexivity|exact He]|]. auto.
   - set (s := mkSrc (chunk_by sizes data) TEOF).
@@ -626,7 +626,7 @@ Proof.
   - cbn. auto.
   - cbn [no_reset forallb] in Hr. apply andb_true_iff in Hr. destruct Hr as [Hr1 Hr2].
     cbn [ops_cost] in Hb.
-    destruct (wstep_A op w Hi) as (o & w1 & Hs & Ho & Hi1 & Hl).
+    destruct (run_op_A op w Hi) as (o & w1 & Hs & Ho & Hi1 & Hl).
     { destruct (is_reset op); [discriminate|reflexivity]. } { lia. }
     rewrite run_wops_cons, Hs.
     destruct (IH w1 Hi1 Hr2 ltac:(lia)) as (HF & Hi2 & Hlen).
